@@ -17,10 +17,16 @@ import (
 	"golang.org/x/tools/go/ssa/ssautil"
 )
 
-const (
-	repoSrc    = "/repo/src"
-	modulePath = "github.com/bartossh/Computantis/src"
-)
+const modulePath = "github.com/bartossh/Computantis/src"
+
+// repoSrc is the module root of the repository under test: /repo/src, always, for the registered
+// checks; GOSYM_REPO points the mutation-matrix tooling at a scratch worktree instead.
+var repoSrc = func() string {
+	if d := os.Getenv("GOSYM_REPO"); d != "" {
+		return filepath.Join(d, "src")
+	}
+	return "/repo/src"
+}()
 
 func harnessRoot() string {
 	if d := os.Getenv("VERIF_HARNESS_DIR"); d != "" {
